@@ -100,7 +100,7 @@ pub trait DID:
 
 #[derive(Clone, PartialEq, Eq, PartialOrd, Ord, Hash, serde::Deserialize, serde::Serialize)]
 #[repr(transparent)]
-#[serde(into = "BaseDIDUrl", try_from = "BaseDIDUrl")]
+#[serde(into = "String", try_from = "String")]
 /// A wrapper around [`BaseDIDUrl`](BaseDIDUrl).
 pub struct CoreDID(BaseDIDUrl);
 
@@ -111,7 +111,7 @@ impl CoreDID {
   ///
   /// Returns `Err` if the input is not a valid [`DID`].
   pub fn parse(input: impl AsRef<str>) -> Result<Self, Error> {
-    BaseDIDUrl::parse(input).map(Self).map_err(Error::from)
+    parse_base_did_url(input.as_ref()).map(Self)
   }
 
   /// Set the method name of the [`DID`].
@@ -263,6 +263,33 @@ impl KeyComparable for CoreDID {
   fn key(&self) -> &Self::Key {
     self
   }
+}
+
+/// Parses `input` with `did_url_parser`, rejecting up front the inputs that crate mishandles:
+/// - it trims surrounding whitespace / control characters but keeps offsets into the untrimmed input, so the
+///   components of such a DID would be misaligned;
+/// - it skips the character following a percent-encoded triplet of the method id without looking at it; when the
+///   triplet ends the input this runs past the end and the crate panics.
+pub(crate) fn parse_base_did_url(input: &str) -> Result<BaseDIDUrl, Error> {
+  let is_ctrl_or_space = |c: char| c.is_ascii_control() || c.is_ascii_whitespace();
+  if input.starts_with(is_ctrl_or_space) || input.ends_with(is_ctrl_or_space) {
+    return Err(Error::Other("leading or trailing whitespace"));
+  }
+  if pct_skip_overruns(input.as_bytes()) {
+    return Err(Error::InvalidMethodId);
+  }
+  BaseDIDUrl::parse(input).map_err(Error::from)
+}
+
+/// Mirrors how `did_url_parser` walks the method id: after a '%' it consumes the two digits and one more
+/// character. Returns `true` if that runs past the end of `bytes` (before any path, query or fragment), i.e. if
+/// the method id ends in a percent-encoded triplet, which the crate cannot represent.
+fn pct_skip_overruns(bytes: &[u8]) -> bool {
+  let mut index: usize = 0;
+  while index < bytes.len() && !matches!(bytes[index], b'/' | b'?' | b'#') {
+    index += if bytes[index] == b'%' { 4 } else { 1 };
+  }
+  index > bytes.len()
 }
 
 /// Checks whether a character satisfies DID method name constraints:
